@@ -38,6 +38,8 @@ def shape_label(text):
         parts.append("target")
     if re.search(r"\b(attempt|user)\b", text):
         parts.append("kv")
+    if re.search(r"[(,;] ?(state|count)(:[?%a-z]+)?[,;]", text):
+        parts.append("kvshort")
     if "\n" in text.strip("\n"):
         parts.append("multi")
     if "{}" in text:
